@@ -429,7 +429,10 @@ Definition check_unused (s : store) (udo : sdict) : bool :=
 Record bdir := mkB {
   cd : option cdata;          (* meson-private/coredata.dat *)
   cl : option sdict;          (* meson-private/cmd_line.txt, [options] *)
-  intro : option store }.     (* meson-info/intro-buildoptions.json: written from this store *)
+  intro : option store }.     (* meson-info/intro-buildoptions.json: written from this store - every
+                                 option with its stored value and (mintro._list_buildoptions) every
+                                 augment under its subproject-qualified name with the overriding value;
+                                 the projection to names is done by harness/check_C08.py:canon_model *)
 
 Definition empty_dir : bdir := mkB None None None.
 
